@@ -370,6 +370,28 @@ fn xen_part(ctx: &Ctx, _thorough: bool) {
             }
         }
     }
+    // MAP_FIXED must be refused for every mapping type, also where construction maps nothing
+    for &w in &valid {
+        for fixed_flags in [libc::MAP_SHARED | libc::MAP_FIXED, libc::MAP_PRIVATE | libc::MAP_FIXED, libc::MAP_SHARED | libc::MAP_NORESERVE | libc::MAP_FIXED] {
+            ctx.case(true);
+            let mut range = MmapRange::new(4096, Some(emu.file_offset(0)), GuestAddress(0x8000), w, 0);
+            range.set_flags(fixed_flags);
+            let (res, log) = record_maps(|| MmapRegion::<()>::from_range(range));
+            let rp = json!({"mmap_flags": format!("{:#x}", w), "flags": fixed_flags, "what": "MAP_FIXED"});
+            if fixed_attempted(&log) {
+                fail(ctx, "C15/xen/from_range/MAP_FIXED-reached-the-kernel", format!("xen flags {:#x}", w), rp.clone());
+            }
+            if let Ok(r) = res {
+                fail(ctx, "C15/xen/from_range/MAP_FIXED-accepted", format!("xen flags {:#x} with mmap flags {:#x} (MAP_FIXED) was accepted; flags() = {:#x}", w, fixed_flags, r.flags()), rp.clone());
+                drop(r);
+                emu.state.borrow_mut().live.clear();
+            } else if !left_mapped(&log).is_empty() || !emu.live().is_empty() {
+                fail(ctx, "C15/xen/from_range/left-mapped-after-failure", format!("MAP_FIXED request, xen flags {:#x}", w), rp.clone());
+                emu.state.borrow_mut().live.clear();
+            }
+            emu.take_log();
+        }
+    }
     // MAP_FIXED and file range checks for the UNIX flavour
     let f = tempfile().unwrap();
     f.set_len(8192).unwrap();
